@@ -435,8 +435,10 @@ class ArgumentParser:
         if unrecognized:
             log.warning(f"Unrecognized arguments: '{' '.join(unrecognized)}'")
 
-        # Construct final list of active modes.
-        args.modes = set(args.modes)
+        # Construct final list of active modes: each mode once, in the order
+        # in which the command line enables them.  (A set would apply the
+        # modes' defines and include paths in hash order.)
+        args.modes = list(dict.fromkeys(args.modes))
 
         # Construct final list of active passes.
         args.passes = set(args.passes)
